@@ -10,7 +10,10 @@
    pen / font in force when it was issued.  fx = false is the code as it is,
    fx = true the code with the proposed fixes.  [None] = a gridn loop did not
    end within [fuel] rounds (OutOfFuel), which no theorem treats as success. *)
-From Coq Require Import ZArith List String Floats.
+(* Floats is deliberately not imported before the theorems, so that Print
+   Assumptions names the kernel's float primitives with their module prefix. *)
+From Coq Require Import ZArith List String.
+From Coq Require Floats.
 From EvyV Require Import Base Svg SvgProofs.
 From EvyV.Gen Require Import SvgConsts.
 Import ListNotations.
@@ -71,7 +74,7 @@ Print Assumptions C19_shape_count.
 (* Termination is proved over the ABSTRACT condition that a natural-number
    measure of the loop variable strictly decreases in every round entered (over
    binary64, "unit > 0" does not imply it: i + unit = i for tiny units). *)
-Theorem C19_gridn_terminates_partial : forall (unit : float) (m : float -> nat),
+Theorem C19_gridn_terminates_partial : forall (unit : PrimFloat.float) (m : PrimFloat.float -> nat),
   (forall i, PrimFloat.leb i grid_bound = true -> (m (fadd i (tx unit)) < m i)%nat) ->
   exists fuel l, grid_lines fuel unit = Some l.
 Proof. exact gridn_terminates_if_measure. Qed.
@@ -80,16 +83,17 @@ Print Assumptions C19_gridn_terminates_partial.
 (* "gridn terminates for every unit" is false: for unit = 0 (and -infinity) no
    amount of fuel suffices *)
 Theorem C19_gridn_terminates_refuted :
-  exists unit : float, PrimFloat.leb unit 0%float = true /\ forall fuel, grid_lines fuel unit = None.
-Proof. exists 0%float. split; [reflexivity | exact gridn_zero_never_ends]. Qed.
+  exists unit : PrimFloat.float, PrimFloat.leb unit PrimFloat.zero = true /\ forall fuel, grid_lines fuel unit = None.
+Proof. exists PrimFloat.zero. split; [reflexivity | exact gridn_zero_never_ends]. Qed.
 Print Assumptions C19_gridn_terminates_refuted.
 
 Theorem C19_gridn_terminates_refuted_negative :
-  exists unit : float, PrimFloat.ltb unit 0%float = true /\ forall fuel, grid_lines fuel unit = None.
-Proof. exists neg_infinity. split; [reflexivity | exact gridn_neg_infinity_never_ends]. Qed.
+  exists unit : PrimFloat.float, PrimFloat.ltb unit PrimFloat.zero = true /\ forall fuel, grid_lines fuel unit = None.
+Proof. exists PrimFloat.neg_infinity. split; [reflexivity | exact gridn_neg_infinity_never_ends]. Qed.
 Print Assumptions C19_gridn_terminates_refuted_negative.
 
 (* ---------- refutations of the unguarded statement for the code as it is ---------- *)
+Import Floats.
 Definition shows (fx_model fx_spec : bool) (fuel : nat) (l : list cmd) : Prop :=
   exists st, run fx_model fuel pre_init (program l) = Some st /\
              spec fx_spec fuel (program l) = Some (flatten (render fx_model st)).
@@ -178,8 +182,8 @@ Proof.
   exact nan_measure.
 Qed.
 
-(* bounded facts (not theorems about all fuel): the usual units end, a negative finite unit does not end within 20000 rounds *)
+(* bounded facts (not theorems about all fuel): the usual units end, a negative finite unit does not end within 2000 rounds *)
 Example C19_ex_grid_default : exists l, grid_lines 102 10 = Some l /\ List.length l = 22%nat.
 Proof. eexists; split; [vm_compute; reflexivity | vm_compute; reflexivity]. Qed.
-Example C19_ex_grid_negative_bounded : grid_lines 20000 (-1) = None.
+Example C19_ex_grid_negative_bounded : grid_lines 2000 (-1) = None.
 Proof. vm_compute. reflexivity. Qed.
